@@ -62,6 +62,10 @@ class Interp:
     # ---------------------------------------------------------------- exprs
     def ev(self, e, st):
         if isinstance(e, ast.Constant):
+            if isinstance(e.value, float):
+                # a float literal: its exponent is known, and it carries no argument's mantissa
+                import math
+                return F(ZERO if e.value == 0 else int(math.floor(math.log10(abs(e.value)))), 0, "const")
             return e.value
         if isinstance(e, ast.Name):
             if e.id not in st:
@@ -267,7 +271,7 @@ class Interp:
                 if len(parts) == 3 and parts[0][0] == "fmt" and isinstance(parts[0][1], tuple) and parts[0][1][0] == "mant" and parts[0][2] == "" and parts[1] == ("lit", "e") \
                         and parts[2][0] == "fmt" and isinstance(parts[2][1], int) and not isinstance(parts[2][1], bool) and parts[2][2] == "":
                     _, val, digits = parts[0][1]
-                    carry = self.bits[("c6" if digits == 6 else "c1", val.src)]
+                    carry = self.bits.get(("c6" if digits == 6 else "c1", val.src), 0)
                     printed = 0 if val.L == ZERO else val.L + carry
                     shift = printed - parts[2][1]
                     out = val.scaled(shift)
@@ -298,11 +302,28 @@ class Interp:
                 return self.str_format(recv, args, {k.arg: self.ev(k.value, st) for k in e.keywords if k.arg})
             if f.attr == "split" and args == ["e"] and isinstance(recv, tuple) and recv[0] == "sci":
                 val, digits = recv[1], recv[2]
-                carry = self.bits[("c6" if digits == 6 else "c1", val.src)]
+                carry = self.bits.get(("c6" if digits == 6 else "c1", val.src), 0)
                 expo = 0 if val.L == ZERO else val.L + carry
                 return ("split", ("mant", val, digits), ("expstr", expo))
             if f.attr == "replace" and args == [".", ""] and isinstance(recv, tuple) and recv[0] == "mant":
                 return ("digits", recv[1], recv[2] + 1)
+            if f.attr in ("lstrip", "strip") and args in (["-"], ["+-"], ["-+"]) and isinstance(recv, tuple) and recv[0] == "fixed":
+                # the sign removed: a string that can only be asked about its leading digits
+                return ("probe", recv)
+            if f.attr == "startswith" and len(args) == 1 and isinstance(args[0], str) and isinstance(recv, tuple) and recv[0] in ("probe", "fixed"):
+                import re
+                fx = recv[1] if recv[0] == "probe" else recv
+                m = re.fullmatch(r"(\d+)\.?", args[0])
+                if m and not (recv[0] == "fixed" and False):
+                    n = len(m.group(1)) if args[0].endswith(".") else None
+                    val = fx[1]
+                    if n is not None and isinstance(val, F):
+                        # the integer part of a fixed-point print of v has max(1, L+1) digits, or one more when the rounding carries
+                        if val.L == ZERO:
+                            return None if (n == 1 and m.group(1) == "0") else False
+                        digits = max(1, val.L + 1)
+                        return None if n in (digits, digits + 1) else False
+                    return None
             raise AnalysisError("C20 interpreter: method %s" % norm(e))
         raise AnalysisError("C20 interpreter: call %s" % norm(e))
 
@@ -476,8 +497,10 @@ def run(ctx):
                     suffix = parts[4][1] if len(parts) == 5 else 0
                     errv, ndig = dg[1], dg[2]
                     problems = []
-                    if val.src != "x" or errv.src != "err":
-                        problems.append(("roles", "the value / bracket are not x / err"))
+                    same_zero = val.src == "const" and val.L == ZERO and Lx == ZERO      # 0.0 written for an x that is zero: the same number
+                    if (val.src != "x" and not same_zero) or errv.src != "err":
+                        problems.append(("roles", "the value / bracket printed are not the arguments x / err (the value comes from %s, the bracket from %s)" % (
+                            "a literal" if val.src == "const" else val.src, "a literal" if errv.src == "const" else errv.src)))
                     if ndig != 2:
                         problems.append(("digits", "the bracket shows %d digit(s) of the error, not two" % ndig))
                     e = errv.L + bits[("c1", "err")]
